@@ -311,7 +311,7 @@ func visitInstr(fr *frame, instr ssa.Instruction) continuation {
 	case *ssa.Go:
 		fn, args := prepareCall(fr, &instr.Call)
 		lib := !r.i.isHarnessFn(fr.fn)
-		r.spawn(fr.t, fn, args, lib, fr.pos(instr))
+		r.spawn(fr.t, fn, args, lib, fr.pos(instr), lib && fr.i.pkgRewritten(fr.fn))
 
 	case *ssa.MakeChan:
 		n := r.concInt(fr.get(instr.Size), "chancap")
@@ -670,4 +670,45 @@ func (i *interpreter) posStr(p token.Pos) string {
 		f = f[k+1:]
 	}
 	return fmt.Sprintf("%s:%d", f, pp.Line)
+}
+
+// pkgRewritten: native replays compile this function's package against the sync/atomic/time shims.
+func (i *interpreter) pkgRewritten(fn *ssa.Function) bool {
+	for fn.Parent() != nil {
+		fn = fn.Parent()
+	}
+	pkg := fn.Pkg
+	if pkg == nil {
+		if o := fn.Origin(); o != nil {
+			pkg = o.Pkg
+		}
+	}
+	if pkg == nil {
+		return false
+	}
+	p := pkg.Pkg.Path()
+	return strings.HasPrefix(p, "github.com/samber/ro") && !strings.Contains(p, "/ee/pkg/") && !strings.Contains(p, "/ee/internal/")
+}
+
+// countable: fr is the frame of a modelled sync / atomic function; walk up through frames of the
+// standard sync packages to the first real caller.
+func (i *interpreter) countable(fr *frame) bool {
+	c := fr.caller
+	for c != nil && c.fn != nil {
+		fn := c.fn
+		pkg := fn.Pkg
+		if pkg == nil {
+			if o := fn.Origin(); o != nil {
+				pkg = o.Pkg
+			}
+		}
+		if pkg != nil {
+			if p := pkg.Pkg.Path(); p == "sync" || p == "sync/atomic" {
+				c = c.caller
+				continue
+			}
+		}
+		return i.pkgRewritten(fn)
+	}
+	return false
 }
